@@ -307,3 +307,11 @@ def replay(ctx, path):
         print("VIOLATION property=C17 replay=%s" % path)
         return 1
     return 0
+
+
+def pregen(ctx):
+    hb = C.build_harness("root", pkg="./cmd/c17")
+    cases = ctx.work + "/pregen.txt"
+    rc, out = C.sh([hb, "gen", "quick", cases], env=ctx.env(), timeout=600)
+    rows = C.read_tsv(cases)
+    write_tables([r for r in rows if r[0].startswith("#")])
